@@ -54,7 +54,7 @@ def alphabet(level):
                   O(COPYASSIGN, i, j, thr=1), O(COPYCTOR, i, j, thr=1)]
         for i in range(NSLOT):
             A += [O(MKVAL, i, a=slot_alloc(i), z=80, v=20 + i), O(MKVAL, i, a=slot_alloc(i), z=16, v=30 + i),
-                  O(SET, i, v=40 + i), O(MKVAL, i, a=slot_alloc(i), z=80, v=60 + i, thr=1)]
+                  O(SET, i, v=40 + i), O(MKVAL, i, a=slot_alloc(i), z=80, v=60 + i, thr=1), O(MKVAL, i, a=slot_alloc(i), z=16, v=70 + i, thr=2)]
     return A
 
 def random_op(rng):
@@ -64,7 +64,7 @@ def random_op(rng):
     z = rng.choice([16, 64, 80, 80])
     v = rng.randrange(1, 99)
     thr = 1 if rng.random() < 0.15 else 0
-    if k < 0.10: return O(MKVAL, i, a=a, z=z, v=v, thr=thr)
+    if k < 0.10: return O(MKVAL, i, a=a, z=z, v=v, thr=(2 if thr and rng.random() < 0.5 else thr))
     if k < 0.14: return O(MKREF, i, j=rng.randrange(NEXT), a=a, thr=rng.randrange(2))
     if k < 0.16: return O(MKEMPTY, i, a=a)
     if k < 0.26: return O(COPYCTOR, i, j, thr=thr)
@@ -91,7 +91,7 @@ CORPUS = [
     # empty operands, stale sizes
     [O(MKEMPTY, 0, a=1), O(MKREF, 1, j=0, a=2, thr=1), O(COPYASSIGN, 1, 0), O(GETPTR, 1), O(COPYCTOR, 2, 1), O(MOVEASSIGN, 0, 1), O(MKVAL, 2, a=1, z=80, v=7), O(MOVEASSIGN, 2, 0), O(COPYASSIGN, 1, 2)],
     # throwing copies / constructors
-    [O(MKVAL, 0, a=1, z=80, v=8), O(MKVAL, 1, a=2, z=16, v=9), O(COPYASSIGN, 1, 0, thr=1), O(COPYCTOR, 2, 0, thr=1), O(COPYASSIGN, 0, 1, thr=1), O(COPYCTORA, 2, 0, a=2, thr=1), O(MKVAL, 2, a=1, z=80, v=1, thr=1), O(MKVAL, 2, a=1, z=16, v=1, thr=1)],
+    [O(MKVAL, 0, a=1, z=80, v=8), O(MKVAL, 1, a=2, z=16, v=9), O(COPYASSIGN, 1, 0, thr=1), O(COPYCTOR, 2, 0, thr=1), O(COPYASSIGN, 0, 1, thr=1), O(COPYCTORA, 2, 0, a=2, thr=1), O(MKVAL, 2, a=1, z=80, v=1, thr=1), O(MKVAL, 2, a=1, z=16, v=1, thr=1), O(MKVAL, 2, a=1, z=80, v=2, thr=2), O(MKVAL, 1, a=2, z=16, v=3, thr=2), O(MKVAL, 0, a=1, z=64, v=4, thr=2)],
     # references: aliasing and const
     [O(MKREF, 0, j=0, a=1), O(COPYCTOR, 1, 0), O(SET, 1, v=77), O(GET, 0), O(MKREF, 2, j=0, a=1, thr=1), O(SET, 2, v=5), O(ASSET, 2, z=16, v=5), O(GETPTR, 2), O(ASGET, 2, z=16), O(ASGET, 2, z=80), O(COPYASSIGN, 0, 2), O(SET, 0, v=6), O(MOVECTOR, 1, 0), O(ASSET, 1, z=16, v=9), O(GET, 2)],
 ]
@@ -155,8 +155,9 @@ def hash_trace(trace):
 
 def enc(op):
     code, i, j, a, z, v, thr = op
-    assert 0 <= code < 16 and 0 <= i < 4 and 0 <= j < 4 and 0 <= a < 4 and 0 <= z < 128 and 0 <= v < 128 and thr in (0, 1)
-    return code | i << 4 | j << 6 | a << 8 | z << 10 | v << 17 | thr << 24
+    assert 0 <= code < 16 and 0 <= i < 4 and 0 <= j < 4 and 0 <= a < 4 and 0 <= z < 128 and 0 <= v < 128 and thr in (0, 1, 2)
+    # thr = 2 (MkVal only): the VTABLE constructor throws after the payload was built; observably the model's "constructor throws"
+    return code | i << 4 | j << 6 | a << 8 | z << 10 | v << 17 | (1 if thr else 0) << 24
 
 # ----------------------------------------------------------------------------------------------- oracle
 
